@@ -60,8 +60,10 @@ def _par(p, q, free):
     return p
 
 
-def build(spec, name="p"):
-    """returns (prog, cmds) where cmds[i] is the Command created for spec op i"""
+def build(spec, name="p", op_cache=None):
+    """returns (prog, cmds) where cmds[i] is the Command created for spec op i.
+    `op_cache` (a dict) makes equal operations share ONE Operation instance, within a program and across all
+    programs built with the same cache (a common way to write circuit families: `bs = BSgate(..)` created once)."""
     import strawberryfields as sf
     from strawberryfields import ops
     prog = sf.Program(spec["n"], name=name)
@@ -71,7 +73,16 @@ def build(spec, name="p"):
             if isinstance(p, dict) and "f" in p and p["f"] not in free:
                 free[p["f"]] = prog.params(p["f"])
     with prog.context as q:
+        q = list(q)
         for op in spec["ops"]:
+            if op["cls"] == "Del":          # mode deletion: `Del | q[i]`
+                regs = [q[i] for i in op["regs"]]
+                ops.Del | (regs if len(regs) > 1 else regs[0])
+                continue
+            if op["cls"] == "New":          # mode creation: regs are the indices the new modes receive
+                new = ops.New(len(op["regs"]))
+                q += list(new)
+                continue
             cls = getattr(ops, op["cls"])
             pars = [_par(p, q, free) for p in op.get("pars", [])]
             # array-valued parameters: {"re": nested list, "im": nested list (optional)} — placed before `pars`
@@ -85,9 +96,17 @@ def build(spec, name="p"):
             kw = dict(op.get("kw", {}))
             if op.get("select") is not None:
                 kw["select"] = op["select"]
-            o = cls(*pars, **kw)
-            if op.get("dagger"):
-                o = o.H
+            key = None
+            if op_cache is not None and not any(isinstance(p, dict) for p in op.get("pars", [])) and not op.get("apars"):
+                key = repr((op["cls"], op.get("pars"), sorted(kw.items(), key=str), bool(op.get("dagger"))))
+            if key is not None and key in op_cache:
+                o = op_cache[key]
+            else:
+                o = cls(*pars, **kw)
+                if op.get("dagger"):
+                    o = o.H
+                if key is not None:
+                    op_cache[key] = o
             regs = [q[i] for i in op["regs"]]
             o | (regs if len(regs) > 1 else regs[0])
     return prog, list(prog.circuit)
@@ -170,3 +189,29 @@ def rand_circuit(rng, n, length, p_meas=0.3, allow=("gate1", "gate2", "channel",
                     measured.append(r)
         ops.append(op)
     return dict(n=n, ops=ops)
+
+
+def with_del_new(rng, spec, p_del=0.5, p_new=0.5):
+    """insert `Del` of a mode after its last use (and possibly `New` modes used afterwards) into a circuit spec:
+    the register then has holes, so subsystem index != position in the register"""
+    ops_ = [dict(o) for o in spec["ops"]]
+    n = spec["n"]
+    if rng.random() < p_del and n >= 2:
+        d = rng.randrange(n)
+        last = -1
+        for i, o in enumerate(ops_):
+            if d in op_wires(o):
+                last = i
+        t = rng.randint(last + 1, len(ops_))
+        ops_.insert(t, dict(cls="Del", regs=[d], pars=[]))
+        if rng.random() < p_new:
+            t2 = rng.randint(t + 1, len(ops_))
+            k = rng.randint(1, 2)
+            new = list(range(n, n + k))
+            ops_.insert(t2, dict(cls="New", regs=new, pars=[]))
+            for m in new:
+                if rng.random() < 0.7:
+                    ops_.insert(rng.randint(t2 + 1, len(ops_)), dict(cls="Sgate", regs=[m], pars=[0.25, 0.0]))
+                if rng.random() < 0.6:
+                    ops_.append(dict(cls="MeasureFock", regs=[m], pars=[]))
+    return dict(n=n, ops=ops_)
